@@ -34,7 +34,9 @@ Record atx := mkTx {
 
 Record env := mkEnv {
   e_stake_req : N;      (* blockchain.social_stake_requirement *)
-  e_ovf : bool          (* overflow checks compiled in *)
+  e_ovf : bool;         (* overflow checks compiled in *)
+  e_latest : N;         (* blockchain.get_latest_block_id() *)
+  e_gp : N              (* blockchain.genesis_period *)
 }.
 
 (* TransactionType / SlipType discriminants *)
@@ -170,19 +172,43 @@ Definition bound_checks (e : env) (t : atx) : verdict :=
     end
   else Invalid.
 
+(* the retention window (validate_against_utxo, which both the pool and block validation
+   pass as true): `self.from.iter().any(|slip| slip.amount > 0 && slip.slip_type != Bound
+   && slip.block_id + genesis_period < next_block_id)` with next_block_id = latest + 1;
+   `any` stops at the first too-old input, and `block_id + genesis_period` is a plain u64
+   addition on an attacker-chosen block_id.  Valid = no input is too old. *)
+Fixpoint age_check (ovf : bool) (gp next : N) (l : list aslip) : verdict :=
+  match l with
+  | [] => Valid
+  | s :: rest =>
+      if value_input s then
+        (if two64 <=? sl_bid s + gp
+         then (if ovf then Panics
+               else if (sl_bid s + gp) mod two64 <? next then Invalid else age_check ovf gp next rest)
+         else if sl_bid s + gp <? next then Invalid else age_check ovf gp next rest)
+      else age_check ovf gp next rest
+  end.
+Definition e_next (e : env) : N := e_latest e + 1.
+
 (* checks on user-originated transactions (everything but ATR and Issuance),
    then the per-type rules *)
+Definition common_tail (e : env) (t : atx) : verdict :=
+  let user := negb (t_type t =? TATR) && negb (t_type t =? TIssuance) in
+  if user && negb (t_path_ok t) then Invalid else
+  if user && (total_in t <? total_out t) then Invalid else
+  if t_type t =? TBound then bound_checks e t else
+  if negb (t_type t =? TATR) && (has_bound (t_from t) || has_bound (t_to t)) then Invalid else
+  tail_checks t.
 Definition common_checks (e : env) (t : atx) : verdict :=
   let user := negb (t_type t =? TATR) && negb (t_type t =? TIssuance) in
   if user && match t_from t with [] => true | _ => false end then Invalid else
   if user && negb (t_has_hash t) then Invalid else
   if user && negb (t_sig_ok t) then Invalid else
   if user && negb (t_type t =? TBound) && negb (all_owned t) then Invalid else
-  if user && negb (t_path_ok t) then Invalid else
-  if user && (total_in t <? total_out t) then Invalid else
-  if t_type t =? TBound then bound_checks e t else
-  if negb (t_type t =? TATR) && (has_bound (t_from t) || has_bound (t_to t)) then Invalid else
-  tail_checks t.
+  match (if user then age_check (e_ovf e) (e_gp e) (e_next e) (t_from t) else Valid) with
+  | Valid => common_tail e t
+  | v => v
+  end.
 
 Definition tx_validate (e : env) (t : atx) : verdict :=
   if 255 <? Nlen (t_from t) then Invalid else
